@@ -94,6 +94,13 @@ def run(ctx):
                 replace_map_cases=len(rml),
                 disagreements=dis[:20] + rmd[:10] + ec["disagreements"],
                 samples=[dict(line=triples[7][0], stop=triples[7][1], lower=triples[7][2])])
+    # ---- Leg C (iii): character-level model of string_replace_map and of the separator-cutting matchers
+    import srm_corr
+    sr = srm_corr.corr(ctx.seed + 7, ctx.n(40, 600))
+    corr["cases"] += sr["cases"]
+    corr["distinct"] += sr["cases"]
+    corr["disagreements"] += sr["disagreements"]
+    corr["separator_level"] = {k: v for k, v in sr.items() if k not in ("disagreements", "samples")}
     # ---- Leg E: tokens(str(parse(layout(P)))) == tokens(P)
     jobs = []
     nprog = ctx.n(40, 1500)
